@@ -116,7 +116,7 @@ def run_bin(exe, ops_path, timeout=600):
     out_lines = []
     resume = None
     aborted = []
-    for _ in range(50):
+    for _ in range(300):
         cmd = [exe, ops_path] + (["--resume-after", resume[0], resume[1]] if resume else [])
         p = subprocess.run(cmd, capture_output=True, text=True, timeout=timeout, errors="replace")
         lines = p.stdout.splitlines()
